@@ -125,10 +125,10 @@ func TestVerifBoundedMacros(t *testing.T) {
 		{[]string{"a", "b", "c"}, "$0 + $1 * $2"},
 		{[]string{"a", "b", "c"}, "($0 - $1) * ($2 - $1)"},
 		{[]string{"a", "b", "c"}, "len([$2, $1]) + $0"},
-		{[]string{"X"}, "$0 + 1"},                  // constant-style parameter names
+		{[]string{"X"}, "$0 + 1"}, // constant-style parameter names
 		{[]string{"A", "COND"}, "if $1 { $0 } else { -$0 }"},
-		{[]string{"x"}, "$0 * 2"},                  // parameter named like a global of the program
-		{[]string{"a"}, "quote($0)"},               // a quote inside the template: its unquote is substituted too
+		{[]string{"x"}, "$0 * 2"},    // parameter named like a global of the program
+		{[]string{"a"}, "quote($0)"}, // a quote inside the template: its unquote is substituted too
 		{[]string{"a", "b"}, "[quote($0 + 1), $1]"},
 		{[]string{"a"}, "quote(quote($0))"},
 	}
